@@ -314,25 +314,78 @@ func runC12(c *Ctx) {
 			if as == nil || fromKind(rhs) {
 				return true
 			}
-			cv := f.constOf(rhs)
-			loc, located := g.Locate(as)
-			if cv == nil || !located {
+			// the flag travels through boolean locals (a helper's results): every constant stored into a local that
+			// can flow into the flag is a store site of its own
+			type site struct {
+				val string
+				n   ast.Node
+			}
+			var sites []site
+			if cv := f.constOf(rhs); cv != nil {
+				sites = append(sites, site{cv.String(), as})
+			} else if id, ok := ast.Unparen(rhs).(*ast.Ident); ok {
+				seen := map[types.Object]bool{}
+				var follow func(o types.Object, depth int) bool
+				follow = func(o types.Object, depth int) bool {
+					if o == nil || seen[o] || depth > 4 {
+						return false
+					}
+					seen[o] = true
+					found := false
+					for _, a := range f.assignsTo(f.Decl.Body, o) {
+						if len(a.Lhs) != len(a.Rhs) {
+							return false
+						}
+						for i, l := range a.Lhs {
+							lid, ok := ast.Unparen(l).(*ast.Ident)
+							if !ok || f.ObjOf(lid) != o {
+								continue
+							}
+							if cv := f.constOf(a.Rhs[i]); cv != nil {
+								sites = append(sites, site{cv.String(), a})
+								found = true
+							} else if rid, ok := ast.Unparen(a.Rhs[i]).(*ast.Ident); ok {
+								if !follow(f.ObjOf(rid), depth+1) {
+									return false
+								}
+								found = true
+							} else {
+								return false
+							}
+						}
+					}
+					return found
+				}
+				if !follow(f.ObjOf(id), 0) {
+					sites = nil
+				}
+			}
+			if len(sites) == 0 {
 				c.Undecided("C12.3", f.Name+"|dispatch", "isLeaf is stored from a non-constant in fetch")
 				return true
 			}
-			if cv.String() == "true" {
-				nTrue++
-				key := f.Name + "|dispatch|LeafNode"
-				if idx[key]++; idx[key] > 1 {
-					key += "#" + itoa(idx[key])
+			for _, st := range sites {
+				cvs := st.val
+				loc, located := g.Locate(st.n)
+				if !located {
+					c.Undecided("C12.3", f.Name+"|dispatch", "a store of the leaf flag could not be located in the flow graph")
+					continue
 				}
-				c.Check(holds(loc, token.EQL, "LeafNode"), "C12.3", key, as.Pos(), "isLeaf=true is stored only where the kind byte is LeafNode", "a page is decoded as a leaf on a path where its kind byte is not known to be LeafNode")
-			} else {
-				key := f.Name + "|dispatch|InternalNode"
-				if idx[key]++; idx[key] > 1 {
-					key += "#" + itoa(idx[key])
+				as := st.n
+				if cvs == "true" {
+					nTrue++
+					key := f.Name + "|dispatch|LeafNode"
+					if idx[key]++; idx[key] > 1 {
+						key += "#" + itoa(idx[key])
+					}
+					c.Check(holds(loc, token.EQL, "LeafNode"), "C12.3", key, as.Pos(), "isLeaf=true is stored only where the kind byte is LeafNode", "a page is decoded as a leaf on a path where its kind byte is not known to be LeafNode")
+				} else {
+					key := f.Name + "|dispatch|InternalNode"
+					if idx[key]++; idx[key] > 1 {
+						key += "#" + itoa(idx[key])
+					}
+					c.Check(holds(loc, token.EQL, "InternalNode") || holds(loc, token.NEQ, "LeafNode"), "C12.3", key, as.Pos(), "isLeaf=false is stored only where the kind byte is InternalNode", "a page is decoded as an internal node on a path where its kind byte may be LeafNode")
 				}
-				c.Check(holds(loc, token.EQL, "InternalNode") || holds(loc, token.NEQ, "LeafNode"), "C12.3", key, as.Pos(), "isLeaf=false is stored only where the kind byte is InternalNode", "a page is decoded as an internal node on a path where its kind byte may be LeafNode")
 			}
 			return true
 		})
